@@ -23,6 +23,7 @@ def run(repo, report, tier):
     report.guard("C20.R1", "registration sites", r1_register, repo, report)
     report.guard("C20.R1", "ownership of the match list", r1_fresh_match_list, repo, report)
     report.guard("C20.R2", "add_match bodies", r2_tallies, repo, report)
+    report.guard("C20.R2", "tally objects", r2_distinct_tallies, repo, report)
     report.guard("C20.R3", "Statistics._collect_modifier", r3_collect, repo, report)
     report.guard("C20.R3", "both mates are collected", r3_no_early_exit, repo, report)
     report.guard("C20.R6", "ErrorRanges call sites", r6_error_ranges, repo, report)
@@ -547,6 +548,17 @@ def r6_range_boundaries(repo, report):
         return isinstance(e, ast.Call) and chain(e.func) == "int" and len(e.args) == 1 and isinstance(e.args[0], ast.BinOp) and isinstance(e.args[0].op, ast.Mult) \
             and sorted([src(e.args[0].left), src(e.args[0].right)]) == sorted([rate, var])
 
+    # the product the aligner truncates, but not the aligner's expression: rounded, nudged by an epsilon, ...
+    perturbed = []
+    for x in ast.walk(fn):
+        if isinstance(x, ast.Call) and chain(x.func) in ("int", "round", "math.floor", "math.ceil", "floor", "ceil") and x.args:
+            prods = [b for b in ast.walk(x.args[0]) if isinstance(b, ast.BinOp) and isinstance(b.op, ast.Mult) and rate in (src(b.left), src(b.right))]
+            if prods and not (chain(x.func) == "int" and len(x.args) == 1 and x.args[0] is prods[0]):
+                perturbed.append(src(x))
+    if perturbed:
+        report.ob("C20.R6", "ErrorRanges: range boundaries", False, facts={"expression": perturbed[:2]}, loc=repo.loc(fn), expected="int(error_rate * L), the aligner's own expression, for every candidate length",
+                  why=f"the allowed errors are computed as {perturbed[0]}, the aligner computes int(rate * L): where the float product lies a hair below an integer (-e 1 on a 49 nt adapter: 1/49*49 = 0.9999999999999999) the table promises an error the aligner does not accept")
+        return
     quotients = [src(x) for x in ast.walk(fn) if isinstance(x, ast.BinOp) and isinstance(x.op, (ast.Div, ast.FloorDiv)) and src(x.right) == rate]
     scans = []
     for lp in [x for x in ast.walk(fn) if isinstance(x, ast.For) and isinstance(x.target, ast.Name)]:
@@ -579,6 +591,32 @@ def r6_range_boundaries(repo, report):
     # the adapter length closes the table
     tail = [x for x in ast.walk(fn) if isinstance(x, ast.Call) and isinstance(x.func, ast.Attribute) and x.func.attr == "append" and [src(a) for a in x.args] == [length]]
     report.ob("C20.R6", "ErrorRanges: the adapter length closes the table", len(tail) == 1, facts={"appends_length": len(tail)}, expected="lengths.append(self.length) unless the last boundary is the length itself", loc=repo.loc(fn))
+
+
+def r2_distinct_tallies(repo, report):
+    """The 5' and the 3' tally of a statistics object are two objects: one EndStatistics bound to both names (a chained
+    assignment, or one attribute assigned from the other) makes every match count on both sides."""
+    n = 0
+    for cls in [repo.cls("EndStatistics")] + list(repo.subclasses("AdapterStatistics")) + [repo.cls("Statistics"), repo.cls("ReadLengthStatistics")]:
+        if cls is None or "__init__" not in cls.methods:
+            continue
+        init = cls.methods["__init__"]
+        n += 1
+        shared = []
+        for st in ast.walk(init):
+            if isinstance(st, ast.Assign):
+                selfs = [chain(t) for t in st.targets if (chain(t) or "").startswith("self.")]
+                if len(selfs) > 1 and not isinstance(st.value, ast.Constant):
+                    shared.append(f"{' = '.join(selfs)} = {src(st.value)[:40]}")
+                if len(selfs) == 1 and (chain(st.value) or "").startswith("self.") and chain(st.value) != selfs[0]:
+                    # one attribute assigned from another: shared unless the other is a plain number/string parameter copy
+                    other = chain(st.value)
+                    made = [x for x in ast.walk(init) if isinstance(x, ast.Assign) and any(chain(t) == other for t in x.targets) and isinstance(x.value, (ast.Call, ast.List, ast.Dict, ast.Set, ast.ListComp, ast.DictComp))]
+                    if made:
+                        shared.append(f"{selfs[0]} = {other}")
+        report.ob("C20.R2", f"{cls.name}: every tally attribute has an object of its own", not shared, facts={"shared": shared}, loc=repo.loc(init), expected="one construction per attribute",
+                  why=(f"{shared[0]}: both names refer to ONE object, so every match is tallied on both (the 5' and the 3' histogram of a -b adapter each show the sum of the two)" if shared else ""))
+    report.floor("C20.R2", "statistics classes", n, 6)
 
 
 def r3_no_early_exit(repo, report):
